@@ -1,0 +1,8 @@
+//go:build !verif
+
+package store
+
+// verifC08Park is the production no-op of the C08 verification seam (see verif_c08.go).
+func verifC08Park(int) func() { return verifC08Noop }
+
+func verifC08Noop() {}
